@@ -95,6 +95,8 @@ WVals == {W[e] : e \in Pairs}
 TieFreeAll == /\ TieFree
               /\ \A qi \in 1..Len(Tr.q) : /\ \A t, u \in Nodes : t # u => Tr.q[qi].dx[t] # Tr.q[qi].dx[u]
                                             /\ \A v \in Nodes : Tr.q[qi].dx[v] \notin WVals /\ Tr.q[qi].dx[v] > 0
+RECURSIVE FirstProto(_, _)
+FirstProto(i, f) == IF f = 0 THEN NIL ELSE IF i \in proto \/ pred[i] = NIL THEN i ELSE FirstProto(pred[i], f - 1)
 Bad ==
   LET D == ClosureV
       b(cond, name) == IF cond THEN {} ELSE {name}
@@ -103,7 +105,9 @@ Bad ==
   \cup b(\A i \in Nodes : \E r \in proto : cost[i] = D[r, i], <<"C01", "cost_not_attained_by_any_prototype_path">>)
   \cup b(\A r \in proto : cost[r] = 0, <<"C01", "prototype_cost_not_zero">>)
   \cup b(\A i \in Nodes : Root(i, N) \in proto, <<"C01", "pred_chain_does_not_reach_a_prototype">>)
-  \cup b(\A i \in Nodes : Root(i, N) \in proto => lab[i] = L[Root(i, N)], <<"C01", "label_is_not_root_prototypes_label">>)
+  \* "the prototype reached" is the first prototype met when following the links, the sample itself if it is one: a prototype carries
+  \* its own true label even if something gave it a predecessor
+  \cup b(\A i \in Nodes : FirstProto(i, N) \in proto => lab[i] = L[FirstProto(i, N)], <<"C01", "label_is_not_root_prototypes_label">>)
   \cup b(\A i \in Nodes : pred[i] # NIL => cost[i] = Max(cost[pred[i]], Wt(pred[i], i)), <<"C01", "cost_is_not_max_of_parent_cost_and_arc">>)
   \cup b(Len(order) = N /\ SeqSet(order) = Nodes, <<"C01", "conquest_order_not_a_permutation">>)
   \cup b(\A j \in 1..(Len(order) - 1) : cost[order[j]] <= cost[order[j + 1]], <<"C01", "conquest_order_not_nondecreasing_in_cost">>)
